@@ -73,15 +73,28 @@ def extra_cpp(stack, nested=False):
     coord = f"fromb<{G.CPP[sk]}>(in.coord[0])" if bare else f"vec<typename field<B>::coordinate_t, {G.CPP[sk]}, {N}>(in.coord, 0)"
     has_pf = k <= 10
     cmp_h = "" if isinstance(prim, G.Array) or not has_pf else f'  if (H_) {{ typename field<B>::view_t vh(*H_); auto rh = vh.at(c); r += " | " + out(rh, {M}); }}\n'
+    if nested and k >= 2:
+        rebuild_src = ('std::string rebuild(const In &) {\n  if (!F) return "nosetup";\n' + nested_rebuild(names, reb, k) +
+                       '  G_ = std::make_unique<field<B>>(make_parameter_pack(std::move(od0)));\n')
+    elif isinstance(prim, G.Array) and k >= 3 and isinstance(layers[-2], G.Layout) and layers[-2].label == "strided" and isinstance(layers[-3], G.Interp):
+        # plain variant, storage order over an array beneath an interpolator (the one shape for which the library accepts a
+        # named storage object in a pack): the storage (storage order + array) is
+        # handed over as a NAMED object, twice -- the pack must copy from it (a pack that moves out of a named argument leaves
+        # the second rebuild, and the caller's storage, empty)
+        pk = ", ".join(reb[:-2] + ["st_"])
+        rebuild_src = ('std::string rebuild(const In &) {\n  if (!F) return "nosetup";\n'
+                       f'  typename {names[-2]}::owning_data_t st_({fown(k - 2)});\n'
+                       f'  {{ field<B> first_(make_parameter_pack({pk})); (void)first_; }}\n'
+                       f'  G_ = std::make_unique<field<B>>(make_parameter_pack({pk}));\n')
+    else:
+        rebuild_src = (f'std::string rebuild(const In &) {{\n  if (!F) return "nosetup";\n'
+                       f'  G_ = std::make_unique<field<B>>(make_parameter_pack({", ".join(reb)}));\n')
     src = (
         "static std::unique_ptr<field<B>> G_, H_;\n"
         "std::string chain_of(const field<B> & f) {\n  std::ostringstream os;\n" + "\n".join(o_stmts) + "\n  return os.str();\n}\n"
         "std::string vchain_of(const field<B> & f) {\n  typename field<B>::view_t v(f);\n  std::ostringstream os;\n" + "\n".join(v_stmts) + "\n  return os.str();\n}\n"
         'std::string chain(const In &) { if (!F) return "nosetup"; return "o" + chain_of(*F) + " | v" + vchain_of(*F); }\n' +
-        (f'std::string rebuild(const In &) {{\n  if (!F) return "nosetup";\n  G_ = std::make_unique<field<B>>(make_parameter_pack({", ".join(reb)}));\n'
-         if not (nested and k >= 2) else
-         'std::string rebuild(const In &) {\n  if (!F) return "nosetup";\n' + nested_rebuild(names, reb, k) +
-         '  G_ = std::make_unique<field<B>>(make_parameter_pack(std::move(od0)));\n') +
+        rebuild_src +
         '  return "o" + chain_of(*G_) + " | v" + vchain_of(*G_);\n}\n')
     if has_pf:
         src += (f'std::string packfor(const In & in) {{\n  H_ = std::make_unique<field<B>>(make_parameter_pack_for<field<B>>({", ".join(args)}));\n'
